@@ -109,6 +109,23 @@ example : run ISum (layer ⟨5, some 2, false⟩) (inputs (fun i => chunkSum (pa
     ISum aggFn ((List.range 5).map (fun i => chunkSum (parts5 i))) :=
   C02_tree ISum ⟨5, some 2, false⟩ (by intro k h; cases h; decide) (ISum_hom _) _ 7 (by decide)
 
+theorem C02Ex.chunkSum_spec (ps : List (List Row)) :
+    ISum aggFn (ps.map chunkSum) = chunkSum ps.flatten := by
+  have e : (ps.map chunkSum).map payOf = (ps.map (List.map (·.pay))).map List.sum := by
+    rw [List.map_map, List.map_map]
+    apply List.map_congr_left
+    intro b _
+    rfl
+  show V.frame [⟨0, 0, ((ps.map chunkSum).map payOf).sum⟩] = V.frame [⟨0, 0, (ps.flatten.map (·.pay)).sum⟩]
+  rw [e, sum_flatten, List.map_flatten]
+
+/-- the sum of the concatenation, for every layout and every split_every -/
+example (se : Option Nat) (hse : ∀ k, se = some k → 2 ≤ k) (n : Nat) (hn : 1 ≤ n) (parts : Nat → List Row) :
+    run ISum (layer ⟨n, se, false⟩) (inputs (fun i => chunkSum (parts i))) (n + 2) .out =
+      chunkSum ((List.range n).flatMap parts) :=
+  C02_tree_spec ISum ⟨n, se, false⟩ hse (ISum_hom _) chunkSum chunkSum (fun ps _ => chunkSum_spec ps) parts hn
+    (n + 2) (Nat.le_refl _)
+
 /-- the conclusion on a concrete instance, by evaluation: 5 partitions (one empty), `split_every=2` ⇒
     three combine levels; the total 1+0+2+10+4+30+5+40 = 92 -/
 example : run ISum (layer ⟨5, some 2, false⟩) (inputs (fun i => chunkSum (parts5 i))) 7 .out =
@@ -363,6 +380,12 @@ example : run (interp ⟨3, 1, 1⟩ (win gShift 1 1)) (layer ⟨3, 1, 1⟩) (inp
 example : run (interp ⟨3, 1, 1⟩ (win gShift 1 1)) (layer ⟨3, 1, 1⟩) (inputs opartsE) 3 (.res 0) = .err :=
   (C02_overlap_refuses_after ⟨3, 1, 1⟩ _ opartsE 0 (by decide) (by decide) (by decide) 3 (by decide)).2
 
+example : (concatV ((List.range 3).map (fun i =>
+        run (interp ⟨3, 1, 1⟩ (win gShift 1 1)) (layer ⟨3, 1, 1⟩) (inputs opartsE) 3 (.res i))) =
+      .frame (win gShift 1 1 ((List.range 3).flatMap opartsE))) ∨
+    (∃ i, i < 3 ∧ run (interp ⟨3, 1, 1⟩ (win gShift 1 1)) (layer ⟨3, 1, 1⟩) (inputs opartsE) 3 (.res i) = .err) :=
+  C02_overlap_dichotomy ⟨3, 1, 1⟩ gShift opartsE 3 (by decide)
+
 end Ov
 
 /-! ## 4. Blockwise -/
@@ -453,6 +476,22 @@ example : concatV ((List.range 3).map (fun i => run IAdd (layer bwp) (inputs bva
       · rfl
       · exact absurd hb (by decide))
     (fun xs => rfl) 1 (by decide)
+
+/-- `df.a + df.b` on aligned operands with partition sizes 2, 0, 2 -/
+example : concatV ((List.range 3).map (fun i =>
+      run (fun _ vs => match vs with
+          | [.frame x, .frame y] => .frame (List.zipWith (fun r q => { r with pay := r.pay + q.pay }) x y)
+          | _ => .err)
+        (layer ⟨3, 1, false, [.expr 0 3 1, .expr 1 3 1]⟩)
+        (inputs (fun _ i => .frame (parts5 i))) 1 (.out i))) =
+    .frame (List.zipWith (fun r q => { r with pay := r.pay + q.pay })
+      ((List.range 3).flatMap parts5) ((List.range 3).flatMap parts5)) :=
+  C02_blockwise_zip _ ⟨3, 1, false, [.expr 0 3 1, .expr 1 3 1]⟩ _ parts5 parts5 _ (fun _ => rfl)
+    (by
+      intro i d np nd hm _
+      simp only [List.mem_cons, Arg.expr.injEq, List.not_mem_nil, or_false] at hm
+      rcases hm with ⟨rfl, _, _⟩ | ⟨rfl, _, _⟩ <;> rfl)
+    (fun xs _ => rfl) 1 (by decide)
 
 /-- the broadcast operand is read at partition 0 by every output partition -/
 example : layer bwp (.out 2) = some (.apply opFn [.dep 0 2, .dep 1 0]) := rfl
@@ -619,6 +658,28 @@ example : ((List.range 7).flatMap (fun o => joinInner (fun r => r.pay) (fun r =>
 
 example : (joinInner (fun r => r.pay) (fun r => r.pay) (allRows 3 jrows₁) (allRows 3 jrows₂)).length = 5 := by
   decide
+
+example : ((List.range 7).flatMap (fun o => joinLeft (fun r => r.pay) (fun r => r.pay)
+      (sem C12Ex.pNe jrows₁ o) (sem C12Ex.pNeAll jrows₂ o))).Perm
+    (joinLeft (fun r => r.pay) (fun r => r.pay) (allRows 3 jrows₁) (allRows 3 jrows₂)) :=
+  C02_join_left_hash C12Ex.pNe C12Ex.pNeAll jrows₁ jrows₂ (fun r => r.pay) (fun r => r.pay) (fun k => 3 * k) rfl
+    (by decide)
+    (by
+      intro i r hr
+      simp only [jrows₁, List.mem_cons, List.not_mem_nil, or_false] at hr
+      rcases hr with rfl | rfl <;> rfl)
+    (by
+      intro i r hr
+      simp only [jrows₂, List.mem_singleton] at hr
+      subst hr; rfl)
+
+/-- one left row (key 0) has no partner and is kept once -/
+example : (joinLeft (fun r => r.pay) (fun r => r.pay) (allRows 3 jrows₁) (allRows 3 jrows₂)).length = 6 := by
+  decide
+
+example : (List.range 3).flatMap (fun i => joinInner (fun r => r.pay) (fun r => r.pay) (jrows₁ i) (allRows 3 jrows₂)) =
+    joinInner (fun r => r.pay) (fun r => r.pay) (allRows 3 jrows₁) (allRows 3 jrows₂) :=
+  C02_join_broadcast _ _ 3 jrows₁ _
 
 end Consumers
 end Dx
